@@ -42,6 +42,8 @@ struct ThreadCtx {
     std::vector<PointRec> *rec = nullptr;
     int team_tid = -1;   ///< omp thread number inside a simulated team, -1 outside
     int team_size = 1;
+    int team_id = 0;     ///< identifies the parallel region (barriers, single)
+    unsigned single_seen = 0; ///< `single` constructs this thread has encountered in the region
     unsigned yield_ctr = 0;
     bool yield_in_query = false;  ///< reader tasks (engine D): hook H2 is a yield point
 };
